@@ -1,14 +1,48 @@
 """C19 — Maven dependency resolution: scope table, collision identity, breadth-first retain,
-management injection, print/parse tables, resolver order."""
+management injection, print/parse tables, resolver order.
+
+Every instance is decided by *what the anchored function computes* on small abstract inputs
+(lib/c19_util.Interp: bounded abstract interpretation of the typed HIR, helpers of the crate followed by
+resolved def key), compared with an oracle that is independent of the code (spec/maven.json and the
+reference definitions below).  Functions are anchored by role (signature / impl / who calls them); names
+only break ties.  A construct the interpreter has no model for is reported (`unrecognised-idiom`), never
+silently accepted."""
 import json
 import os
+import re
 
-from lib import hir as H
 from lib import tables as T
+from lib import c19_util as U
+from lib.c19_util import S, V, Bv, NONE, SOME, OK, ERR, T_, St, Lst, Py, sym
 
 SPEC = os.path.join(os.path.dirname(os.path.dirname(os.path.abspath(__file__))), "spec", "maven.json")
 CR = "maven_dependency_resolver"
 SCOPE = CR + "::DependencyScope"
+COORD = CR + "::coord::MavenCoord"
+COLL = CR + "::coord::DependencyCollisionId"
+DONE = CR + "::maven_pom_done::DependencyDone"
+POMDONE = CR + "::maven_pom_done::MavenPomDone"
+POM = CR + "::maven_pom::MavenPom"
+PARENT = CR + "::maven_pom::Parent"
+DEPMGMT = CR + "::maven_pom::DependencyManagement"
+DEPS = CR + "::maven_pom::Dependencies"
+DEP = CR + "::maven_pom::Dependency"
+TREE = CR + "::tree::Tree"
+FOUND = CR + "::FoundDependency"
+RESOLVER = CR + "::resolver::Resolver"
+
+CLAIM = {
+ "text": "R19.1 the scope a transitive dependency is resolved with = Maven's scope table for all 25 (path scope, declared scope) "
+         "cells, absent scope = compile, optional dependencies cut, children attached in declaration order; R19.2 conflict identity "
+         "= {group, artifact, classifier, type}, nearest-wins mediation (first in breadth-first order, pruned subtrees not visited) "
+         "on sample forests and all forests up to 4 nodes; R19.3 dependencyManagement fills omitted version/scope/optional only, "
+         "import scope splices the imported management, own before parent, ancestors merged root first; R19.4 scope and coordinate "
+         "print/parse tables agree with Maven and with each other, resolvers tried in slice order until the first hit.",
+ "note": "Not decided: equality with Maven on all POM universes (ranges, exclusions, profiles, properties), network behaviour. "
+         "Trusted: rustc HIR/typeck/const-eval/FormatArgs templates; spec/maven.json; the std models of lib/c19_util.py.",
+ "technique": "static analysis: bounded abstract interpretation (partial evaluation of the typed HIR over abstract values, "
+              "same-crate helpers followed by def key), decision tables against spec/maven.json",
+}
 
 
 def run(F, R, tier):
@@ -19,385 +53,832 @@ def run(F, R, tier):
     r19_2(c, R, spec)
     r19_3(c, R, spec)
     r19_4(c, R, spec)
-    return ("A5 decision tables (scope table 25 cells evaluated through its call site, scope print/parse tables, "
-            "coordinate segment order), structural rules on collision identity, breadth-first retain shape, "
-            "dependency-management injection operands and resolver order; oracle: spec/maven.json (Maven docs)")
+    return ("bounded abstract interpretation of the typed HIR (lib/c19_util.Interp; helpers followed by def key, std combinators "
+            "modelled, anything else fails closed): scope table 25 cells + default + optional cut evaluated through "
+            "the recursive resolver function, collision identity, nearest-wins mediation on sample forests and all forests up to 4 "
+            "nodes x all predicate outcomes, dependency-management injection / import / parent order on abstract POMs, scope and "
+            "coordinate print/parse tables and round trip, resolver order; oracle: spec/maven.json (Maven docs) and the reference "
+            "definitions in rules/c19.py")
+
+
+# ------------------------------------------------------------------------------------ anchors by role
+def _clean(t):
+    return re.sub(r"'\w+\s*", "", t or "")
+
+
+def _ins(b):
+    return [_clean(x) for x in (b.get("inputs") or [])]
+
+
+def _out(b):
+    return _clean(b.get("output"))
+
+
+def _role(c, R, rid, label, pred, prefer=None):
+    """the unique function of the crate playing this role (signature / impl); its name only breaks a tie"""
+    cands = []
+    for b in c.bodies:
+        if b.get("body") is None or "inputs" not in b:
+            continue
+        try:
+            if pred(b):
+                cands.append(b)
+        except Exception:
+            continue
+    if len(cands) > 1 and prefer:
+        named = [b for b in cands if b.get("name") == prefer]
+        if len(named) == 1:
+            cands = named
+    found = cands[0] if len(cands) == 1 else None
+    R.anchor(rid, label, found is not None)
+    return found
+
+
+def _fields_ok(c, R, rid, adt, names):
+    a = c.adts.get(adt)
+    have = [f["name"] for f in a["variants"][0]["fields"]] if a and a.get("variants") else None
+    return R.anchor(rid, "struct %s { %s }" % (adt.rsplit("::", 1)[-1], ", ".join(names)), have is not None and sorted(have) == sorted(names),
+                    sp=a.get("sp") if a else None)
+
+
+def _args_by_type(b, table, default=None):
+    """argument list for `b`: for each parameter the first entry of `table` [(predicate on the type text, value)] that accepts it"""
+    out = []
+    for t in _ins(b):
+        for pred, val in table:
+            if pred(t):
+                out.append(val() if callable(val) and not isinstance(val, Py) else val)
+                break
+        else:
+            out.append(default if default is not None else sym("arg:" + t[:40]))
+    return out
+
+
+# ------------------------------------------------------------------------------------ abstract inputs
+def opt(x):
+    return NONE if x is None else SOME(x)
+
+
+def optS(x):
+    return NONE if x is None else SOME(S(x))
+
+
+def optV(x):
+    return NONE if x is None else SOME(V(x))
+
+
+def optB(x):
+    return NONE if x is None else SOME(Bv(x))
+
+
+def coord(g, a, v, cl=None, ty="jar"):
+    return St(COORD, {"group": S(g), "artifact": S(a), "version": S(v), "classifier": optS(cl), "type_": S(ty)})
+
+
+def done(co, scope=None, optional=None):
+    return St(DONE, {"coord": co, "scope": optV(scope), "optional": optB(optional)})
+
+
+def dependency(g, a, v=None, ty=None, cl=None, scope=None, optional=None):
+    return St(DEP, {"group_id": S(g), "artifact_id": S(a), "version": optS(v), "type_": optS(ty), "classifier": optS(cl),
+                    "scope": optV(scope), "optional": optB(optional)})
+
+
+def dependencies(xs):
+    return St(DEPS, {"dependency": Lst(xs)})
+
+
+def pom(g, a, v, parent=None, packaging=None, dm=None, deps=None):
+    return St(POM, {
+        "model_version": S("4.0.0"),
+        "parent": NONE if parent is None else SOME(St(PARENT, {"group_id": S(parent[0]), "artifact_id": S(parent[1]), "version": S(parent[2])})),
+        "group_id": optS(g), "artifact_id": S(a), "version": optS(v), "packaging": optS(packaging),
+        "dependency_management": NONE if dm is None else SOME(St(DEPMGMT, {"dependencies": SOME(dependencies(dm))})),
+        "dependencies": NONE if deps is None else SOME(dependencies(deps)),
+    })
+
+
+def pom_done(co, dm, deps):
+    return St(POMDONE, {"coord": co, "dependency_management": Lst(dm), "dependencies": Lst(deps)})
+
+
+def tree(data, children=()):
+    return St(TREE, {"data": data, "children": Lst(list(children))})
+
+
+SHAPES = {
+    COORD: ["group", "artifact", "version", "classifier", "type_"],
+    DONE: ["coord", "scope", "optional"],
+    POMDONE: ["coord", "dependency_management", "dependencies"],
+    DEP: ["group_id", "artifact_id", "version", "type_", "classifier", "scope", "optional"],
+    DEPS: ["dependency"],
+    DEPMGMT: ["dependencies"],
+    POM: ["model_version", "parent", "group_id", "artifact_id", "version", "packaging", "dependency_management", "dependencies"],
+    PARENT: ["group_id", "artifact_id", "version"],
+    TREE: ["data", "children"],
+    FOUND: ["resolver", "coord", "scope"],
+}
+
+
+def _shapes(c, R, rid, adts):
+    ok = True
+    for a in adts:
+        ok = _fields_ok(c, R, rid, a, SHAPES[a]) and ok
+    return ok
+
+
+def py(v):
+    """plain python view of an abstract value (for comparison with expectations and for reports)"""
+    if isinstance(v, tuple):
+        k = v[0]
+        if k in ("s", "i", "b"):
+            return v[1]
+        if k == "t":
+            return tuple(py(x) for x in v[1])
+        if k == "v":
+            if v[1] == "None" and not v[2]:
+                return None
+            if not v[2]:
+                return v[1]
+            if v[1] in ("Borrowed", "Owned") and len(v[2]) == 1:
+                return py(v[2][0])
+            return (v[1],) + tuple(py(x) for x in v[2])
+        return "<%s>" % (v[1],)
+    if isinstance(v, St):
+        return {a: py(b) for a, b in v.f.items()}
+    if isinstance(v, Lst):
+        return [py(x) for x in v.items]
+    if isinstance(v, U.SetV):
+        return sorted((py(x) for x in v.items), key=repr)
+    return "<%s>" % type(v).__name__
+
+
+def some(x):
+    return ("Some", x)
+
+
+def done_py(g, a, v, cl=None, ty="jar", scope=None, optional=None):
+    return {"coord": {"group": g, "artifact": a, "version": v, "classifier": None if cl is None else some(cl), "type_": ty},
+            "scope": None if scope is None else some(scope), "optional": None if optional is None else some(optional)}
+
+
+class _Eval:
+    """runs interpretations for one rule; the first construct without a model is reported once (fail closed)"""
+
+    def __init__(self, c, R, rid):
+        self.c, self.R, self.rid = c, R, rid
+        self.reported = set()
+
+    def run(self, body, args, hooks=None, where=None):
+        """abstract result, or None after reporting an unrecognised construct"""
+        try:
+            return U.Interp(self.c, hooks=hooks).run(body, args)
+        except U.Unknown as e:
+            w = where or body.get("name") or "?"
+            if w not in self.reported:
+                self.reported.add(w)
+                self.R.unrecognised(self.rid, w, str(e)[:300], sp=body.get("sp"))
+            return None
+        except RecursionError:
+            self.R.unrecognised(self.rid, where or body.get("name") or "?", "evaluation recursion too deep", sp=body.get("sp"))
+            return None
 
 
 # ------------------------------------------------------------------------------------ R19.1
 def r19_1(c, R, spec):
-    R.rule("R19.1", "scope composition = Maven scope table for all 25 (path scope, declared scope) cells, evaluated "
-                    "through the call site's argument order; optional dependencies are cut; absent scope defaults to compile; "
-                    "the composed scope is what the recursion continues with")
-    table_fn = c.fn("the_scope_table")
-    outer = c.fn("get_dependencies_tree")
-    if not (R.anchor("R19.1", "fn the_scope_table", table_fn) and R.anchor("R19.1", "fn get_dependencies_tree", outer)):
-        return
+    _r19_1(c, R, spec)
+    R.floor("R19.1", 25 + 4)
+
+
+def _r19_1(c, R, spec):
+    R.rule("R19.1", "scope composition = Maven scope table for all 25 (path scope, declared scope) cells, evaluated through the "
+                    "resolver function itself: for a dependency declared with scope D by an artifact reached with scope P the recursion "
+                    "continues iff the table has an entry and then with that scope; optional dependencies are cut; absent scope "
+                    "defaults to compile; children are attached in declaration order")
     variants = T.enum_variants(c, SCOPE)
     if not R.anchor("R19.1", "enum DependencyScope", variants):
         return
     names = [v for v, _ in variants]
     R.inst("R19.1", "scope-set", sorted(names) == sorted(spec["scopes"]), sp=c.adts[SCOPE]["sp"],
            expect=sorted(spec["scopes"]), got=sorted(names))
-    calls = [n for n in H.walk(outer["body"]) if n.get("k") == "call" and (n.get("callee") or {}).get("key") == table_fn["key"]]
-    if not R.anchor("R19.1", "call of the_scope_table in get_dependencies_tree", len(calls) == 1, sp=outer["sp"]):
+    outer = _role(c, R, "R19.1", "fn (.., &MavenCoord, DependencyScope) -> Result<Tree<FoundDependency>> [get_dependencies_tree]",
+                  lambda b: any(t == SCOPE for t in _ins(b)) and "tree::Tree<" in _out(b) and "FoundDependency" in _out(b) and not b.get("impl_ty"),
+                  prefer="get_dependencies_tree")
+    merged = _merged_pom_fn(c, R, "R19.1")
+    if not (outer and merged and _shapes(c, R, "R19.1", [COORD, DONE, POMDONE])):
         return
-    call = calls[0]
-    # classify the two arguments: declared scope (derives from DependencyDone.scope) vs path scope
-    roles = []
-    for a in call["args"]:
-        loc = H.local_of(a)
-        init = H.let_init_of(outer["body"], loc[0]) if loc else None
-        src = init if init is not None else a
-        fa = H.field_accesses(src)
-        if any(f == "scope" and (adt or "").endswith("DependencyDone") for adt, f in fa):
-            default = None
-            s0 = H.peel(src)
-            if s0.get("k") == "mcall" and s0["name"] == "unwrap_or":
-                d = H.ctor_of(H.peel(s0["args"][0]))
-                default = d[1] if d else H.render(s0["args"][0])
-            roles.append(("declared", default))
-        else:
-            roles.append(("path", None))
-    ok_roles = sorted(r for r, _ in roles) == ["declared", "path"]
-    R.inst("R19.1", "call-site-roles", ok_roles, sp=call["sp"],
-           detail="arguments of the_scope_table must be (scope on the path so far, scope declared by the dependency) in some order",
-           got=[r for r, _ in roles])
-    if not ok_roles:
-        return
-    di = [r for r, _ in roles].index("declared")
-    pi = 1 - di
-    R.inst("R19.1", "declared-scope-default", roles[di][1] == "Compile", sp=call["sp"],
-           expect="Compile", got=roles[di][1],
+    E = _Eval(c, R, "R19.1")
+    root = coord("org.root", "root", "1")
+
+    def run(P, deps):
+        """deps: [(artifact, declared scope | None, optional | None)] -> ([(artifact, scope) of each recursive call], result)"""
+        calls = []
+
+        def h_merged(ip, args, n):
+            return OK(T_(sym("resolver"), pom_done(U.deep(root), [], [done(coord("org.dep", a, "1"), D, O) for a, D, O in deps])))
+
+        def h_rec(ip, args, n):
+            sc = [a for a in args if U.is_v(a) and not a[2] and a[1] in spec["scopes"]]
+            co = [a for a in args if isinstance(a, St) and a.adt == COORD]
+            calls.append((py(co[0].f["artifact"]) if len(co) == 1 else "?", sc[0][1] if len(sc) == 1 else "?"))
+            return OK(sym("child#%d" % len(calls)))
+        args = _args_by_type(outer, [(lambda t: t == SCOPE, V(P)), (lambda t: "coord::MavenCoord" in t, lambda: U.deep(root))])
+        res = E.run(outer, args, hooks={merged["key"]: h_merged, outer["key"]: h_rec})
+        return (calls, res) if res is not None else (None, None)
+
+    table = spec["scope_table"]
+    for P, row in table.items():
+        for D, want in row.items():
+            calls, res = run(P, [("dep", D, None)])
+            if calls is None:
+                return
+            exp = [("dep", want)] if want else []
+            R.inst("R19.1", "cell:%s/%s" % (P, D), calls == exp and U.is_v(res, "Ok"), sp=outer["sp"],
+                   expect="recursion with %s" % want if want else "no recursion", got=calls,
+                   detail="path scope %s, declared scope %s" % (P, D))
+    # absent <scope> = compile
+    bad = []
+    for P in table:
+        a, _ = run(P, [("dep", None, None)])
+        b, _ = run(P, [("dep", "Compile", None)])
+        want = table[P]["Compile"]
+        if a is None or a != b or a != ([("dep", want)] if want else []):
+            bad.append((P, a))
+    R.inst("R19.1", "declared-scope-default", not bad, sp=outer["sp"], expect="Compile", got=bad or "Compile",
            detail="a dependency without <scope> has scope compile")
-    # the path-scope argument must not be derived inside the loop from the dependency
-    for (pscope, row) in spec["scope_table"].items():
-        for (dscope, want) in row.items():
-            args = [None, None]
-            args[pi] = T.V(pscope)
-            args[di] = T.V(dscope)
-            got = T.Evaluator().run_fn(table_fn, args)
-            want_v = T.V("Some", T.V(want)) if want else T.V("None")
-            R.inst("R19.1", "cell:%s/%s" % (pscope, dscope), got == want_v, sp=table_fn["sp"],
-                   expect=T.show(want_v), got=T.show(got),
-                   detail="path scope %s, declared scope %s" % (pscope, dscope))
-    # optional cut: the call happens only under !is_optional where is_optional = <dep>.optional.unwrap_or(false)
-    conds = H.path_conditions(outer["body"], call)
-    ok_opt = False
-    for kind, cond, pol in conds:
-        if kind not in ("if", "after-exit"):
-            continue
-        inner, neg = H.negate_peel(cond)
-        truth_needed = pol != neg     # value `inner` must have
-        loc = H.local_of(inner)
-        src = H.let_init_of(outer["body"], loc[0]) if loc else inner
-        if src is None:
-            continue
-        s0 = H.peel(src)
-        if any(f == "optional" and (adt or "").endswith("DependencyDone") for adt, f in H.field_accesses(s0)):
-            default = None
-            if s0.get("k") == "mcall" and s0["name"] == "unwrap_or":
-                default = H.const_value(s0["args"][0])
-            if truth_needed is False and default is False:
-                ok_opt = True
-    R.inst("R19.1", "optional-cut", ok_opt, sp=call["sp"],
-           detail="the transitive step must be guarded by `!dependency.optional.unwrap_or(false)`")
-    # the recursion continues with the table's result
-    binder = None
-    for n in H.walk(outer["body"]):
-        if n.get("k") == "letexpr" and any(x is call for x in H.walk(n["init"])):
-            v = H.pat_variant(n["pat"])
-            b = H.pat_bindings(n["pat"])
-            if v and v[1] == "Some" and len(b) == 1:
-                binder = b[0]
-    rec_ok = False
-    rec_sp = None
-    if binder:
-        for n in H.walk(outer["body"]):
-            if n.get("k") == "call" and (n.get("callee") or {}).get("key") == outer["key"]:
-                rec_sp = n["sp"]
-                scope_args = [a for a in n["args"] if a.get("ty") == SCOPE]
-                if len(scope_args) == 1 and H.local_of(scope_args[0]) and H.local_of(scope_args[0])[0] == binder[0]:
-                    rec_ok = True
-    R.inst("R19.1", "recursion-uses-composed-scope", rec_ok, sp=rec_sp or call["sp"],
-           detail="the recursive get_dependencies_tree call must receive the Some(..) payload of the scope table")
-    R.floor("R19.1", 25 + 4)
+    # optional cut
+    bad = []
+    for P in table:
+        for D in table[P]:
+            t, _ = run(P, [("dep", D, True)])
+            f, _ = run(P, [("dep", D, False)])
+            n, _ = run(P, [("dep", D, None)])
+            if t != [] or f is None or f != n:
+                bad.append((P, D, {"optional=true": t, "optional=false": f, "absent": n}))
+    R.inst("R19.1", "optional-cut", not bad, sp=outer["sp"], got=bad[:3] or None,
+           detail="<optional>true</optional> cuts the transitive step; false and absent behave alike")
+    # the recursion carries the dependency's coordinate and the composed scope; children in declaration order
+    P = "Compile"
+    deps = [("d1", "Compile", None), ("d2", "Runtime", None), ("d3", "Test", None), ("d4", None, True), ("d5", None, None)]
+    calls, res = run(P, deps)
+    exp = [(a, table[P][D or "Compile"]) for a, D, O in deps if not O and table[P][D or "Compile"]]
+    ok = False
+    got = {"calls": calls}
+    if res is not None and U.is_v(res, "Ok") and isinstance(res[2][0], St):
+        t = res[2][0]
+        kids = [x for x in t.f.values() if isinstance(x, Lst)]
+        data = [x for x in t.f.values() if isinstance(x, St)]
+        got["children"] = py(kids[0]) if len(kids) == 1 else None
+        got["root"] = {k: v for k, v in (py(data[0]) if len(data) == 1 else {}).items() if k in ("scope", "coord")}
+        ok = (calls == exp and got["children"] == ["<child#%d>" % (i + 1) for i in range(len(exp))]
+              and got["root"] == {"scope": P, "coord": py(root)})
+    R.inst("R19.1", "recursion-uses-composed-scope", ok, sp=outer["sp"], expect={"calls": exp}, got=got,
+           detail="each kept dependency is resolved recursively with its own coordinate and the scope from the table, and attached "
+                  "in declaration order below a node carrying the requested coordinate and scope")
+
+
+def _merged_pom_fn(c, R, rid):
+    return _role(c, R, rid, "fn (.., &MavenCoord) -> Result<(&Resolver, MavenPomDone)> [get_merged_pom]",
+                 lambda b: "maven_pom_done::MavenPomDone" in _out(b) and any("coord::MavenCoord" in t for t in _ins(b))
+                 and not any("maven_pom::MavenPom" in t or "MavenPomDone" in t for t in _ins(b)) and not b.get("impl_ty"),
+                 prefer="get_merged_pom")
 
 
 # ------------------------------------------------------------------------------------ R19.2
-def r19_2(c, R, spec):
-    R.rule("R19.2", "conflict identity is exactly {group, artifact, classifier, type}; clean_up retains the first occurrence "
-                    "in breadth-first order (set.remove as predicate); breadth_first_retain filters a level before descending")
-    adt = c.adts.get(CR + "::coord::DependencyCollisionId")
-    if R.anchor("R19.2", "struct DependencyCollisionId", adt):
-        fields = [f["name"] for f in adt["variants"][0]["fields"]]
-        R.inst("R19.2", "collision-id-fields", sorted(fields) == sorted(spec["collision_id_fields"]), sp=adt["sp"],
-               expect=sorted(spec["collision_id_fields"]), got=sorted(fields),
-               detail="same (group, artifact, classifier, type) = same artifact for mediation; version must not be part of it")
-    mk = c.fn("dependency_collision_id")
-    if R.anchor("R19.2", "fn dependency_collision_id", mk):
-        lits = [n for n in H.walk(mk["body"]) if n.get("k") == "struct" and (n.get("adt") or "").endswith("DependencyCollisionId")]
-        if R.anchor("R19.2", "DependencyCollisionId literal", len(lits) == 1, sp=mk["sp"]):
-            for f in lits[0]["fields"]:
-                root, path = H.place_root(f["e"])
-                src_field = [p for p in path if not p.startswith(".")]
-                R.inst("R19.2", "collision-id-source:%s" % f["name"], src_field == [f["name"]], sp=f["e"]["sp"],
-                       expect="self.%s" % f["name"], got=H.render(f["e"]))
-    cu = c.fn("clean_up_dependencies")
-    if R.anchor("R19.2", "fn clean_up_dependencies", cu):
-        calls = [n for n in H.walk(cu["body"]) if n.get("k") == "call" and H.callee_name(n) == "breadth_first_retain"]
-        if R.anchor("R19.2", "call breadth_first_retain", len(calls) == 1, sp=cu["sp"]):
-            clos = [a for a in calls[0]["args"] if H.peel(a).get("k") == "closure"]
-            ok = False
-            got = None
-            if clos:
-                body = H.peel(H.peel(clos[0])["body"])
-                if body.get("k") == "block" and not body["stmts"] and "tail" in body:
-                    body = H.peel(body["tail"])
-                got = H.render(body)
-                if body.get("k") == "mcall" and body["name"] == "remove" and "HashSet" in (body["recv"].get("tya") or body["recv"].get("ty") or ""):
-                    arg = H.peel(body["args"][0])
-                    ok = H.is_call(arg, "dependency_collision_id")
-            R.inst("R19.2", "retain-first-seen", ok, sp=calls[0]["sp"], got=got,
-                   expect="|dep| set.remove(&dep.coord.dependency_collision_id())  (true exactly for the first occurrence)")
-        # the set is filled from the same forest in breadth-first order over all trees
-    bfr = c.fn("breadth_first_retain")
-    if R.anchor("R19.2", "fn breadth_first_retain", bfr):
-        seq = []
-        for n in H.walk(bfr["body"]):
-            if n.get("k") == "mcall" and n["name"] in ("retain", "pop_front", "pop_back", "push_front", "push_back", "extend", "pop", "push"):
-                recv_root, path = H.place_root(n["recv"])
-                seq.append((n["name"], ".".join(p for p in path if not p.startswith("."))))
-        # expected shape: forest.retain ; loop { queue.pop_front ; t.children.retain ; queue.extend(children) }
-        names = [s[0] for s in seq]
-        ok = names == ["retain", "pop_front", "retain", "extend"] and seq[2][1].endswith("children")
-        R.inst("R19.2", "bfs-shape", ok, sp=bfr["sp"], got=seq,
-               expect="roots.retain; while queue.pop_front(): children.retain; queue.extend(children)",
-               detail="FIFO queue (pop_front + extend at the back) and filtering a level before its children are enqueued "
-                      "make the nearest occurrence the first one seen")
-    R.floor("R19.2", 7)
+def ref_retain(forest, keep):
+    """reference: breadth-first retain.  forest = [[label, [children..]]..]; nodes are offered to `keep` level by level, left to
+    right, children of a rejected node never.  -> (labels in the order offered, retained forest)"""
+    trace = []
+
+    def filt(nodes):
+        out = []
+        for lab, ch in nodes:
+            trace.append(lab)
+            if keep(lab):
+                out.append([lab, ch])
+        return out
+    roots = filt(forest)
+    q = list(roots)
+    while q:
+        node = q.pop(0)
+        node[1] = filt(node[1])
+        q.extend(node[1])
+    return trace, roots
 
 
-# ------------------------------------------------------------------------------------ R19.3
-def r19_3(c, R, spec):
-    R.rule("R19.3", "managed values fill omitted ones only: version = own ?? managed, scope = own.or(managed), optional = own.or(managed); "
-                    "import-scoped entries splice the imported management and are not kept themselves; parent entries come after own entries")
-    md = c.fn("make_dependencies")
-    if R.anchor("R19.3", "fn make_dependencies", md):
-        lits = [n for n in H.walk(md["body"]) if n.get("k") == "struct" and (n.get("adt") or "").endswith("DependencyDone")]
-        managed = []
-        for lit in lits:
-            conds = H.path_conditions(md["body"], lit)
-            if any(k == "iflet" and pol and any(H.is_call(x, "find") for x in H.walk(cn["init"])) for k, cn, pol in conds):
-                managed.append(lit)
-        if R.anchor("R19.3", "DependencyDone literal under `if let Some(result) = dependency_management.iter().find(..)`", len(managed) == 1, sp=md["sp"]):
-            lit = managed[0]
-            binder = None
-            for k, cn, pol in H.path_conditions(md["body"], lit):
-                if k == "iflet" and pol:
-                    b = H.pat_bindings(cn["pat"])
-                    if len(b) == 1:
-                        binder = b[0]
-            fields = {f["name"]: f["e"] for f in lit["fields"]}
-            for fname in ("scope", "optional"):
-                e = H.peel(fields.get(fname, {}))
-                ok = False
-                if e.get("k") == "mcall" and e["name"] == "or":
-                    own_root, own_path = H.place_root(e["recv"])
-                    man_root, man_path = H.place_root(e["args"][0])
-                    ok = (own_path[-1:] == [fname] and man_path[-1:] == [fname] and man_root is not None and binder is not None
-                          and man_root[0] == binder[0] and (own_root is None or own_root[0] != binder[0]))
-                R.inst("R19.3", "managed-%s" % fname, ok, sp=(e.get("sp") or lit["sp"]), got=H.render(e),
-                       expect="x.%s.or(result.%s)  (own value wins, managed value fills the gap)" % (fname, fname))
-            # version: local `version` = x.version.unwrap_or_else(|| result.coord.version.clone())
-            vinit = None
-            coord = H.peel(fields.get("coord", {}))
-            if coord.get("k") == "struct":
-                for f in coord["fields"]:
-                    if f["name"] == "version":
-                        loc = H.local_of(f["e"])
-                        vinit = H.let_init_of(md["body"], loc[0]) if loc else f["e"]
-            okv = False
-            if vinit is not None:
-                v0 = H.peel(vinit)
-                if v0.get("k") == "mcall" and v0["name"] in ("unwrap_or_else", "unwrap_or"):
-                    own_root, own_path = H.place_root(v0["recv"])
-                    arg = H.peel(v0["args"][0])
-                    inner = H.peel(arg["body"]) if arg.get("k") == "closure" else arg
-                    man_root, man_path = H.place_root(inner)
-                    okv = (own_path[-1:] == ["version"] and [p for p in man_path if not p.startswith(".")][-2:] == ["coord", "version"]
-                           and man_root is not None and binder is not None and man_root[0] == binder[0])
-            R.inst("R19.3", "managed-version", okv, sp=(vinit or lit)["sp"], got=H.render(vinit) if vinit else None,
-                   expect="x.version.unwrap_or_else(|| result.coord.version.clone())")
-            # the lookup key is (group, artifact, classifier, type)
-            finds = [x for x in H.walk(md["body"]) if H.is_call(x, "matches_besides_version")]
-            R.inst("R19.3", "management-lookup-key", len(finds) == 1, sp=md["sp"],
-                   detail="managed entry is selected by MavenCoord::matches_besides_version")
-        chains = [n for n in H.walk(md["body"]) if n.get("k") == "mcall" and n["name"] == "chain"]
-        ok = False
-        if len(chains) == 1:
-            pids = H.param_ids(md)
-            arg_root = H.recv_root(chains[0]["args"][0])
-            recv_r = H.recv_root(chains[0]["recv"])
-            # first iterator: the POM's own <dependencies> (2nd parameter); chained: the parent's (3rd parameter)
-            ok = (len(pids) == 3 and arg_root is not None and recv_r is not None
-                  and H.origin_local(md["body"], arg_root[0]) == pids[2]
-                  and H.origin_local(md["body"], recv_r[0]) == pids[1])
-        R.inst("R19.3", "parent-dependencies-after-own", ok, sp=md["sp"],
-               detail="own (child) dependencies first, then `.chain(parent_dependencies)`: declaration order breaks ties")
-    mm = c.fn("matches_besides_version")
-    if R.anchor("R19.3", "fn matches_besides_version", mm):
-        cmp_fields = set()
-        for n in H.walk(mm["body"]):
-            if n.get("k") == "bin" and n["op"] == "==":
-                for side in (n["l"], n["r"]):
-                    _, path = H.place_root(side)
-                    if path:
-                        cmp_fields.add(path[-1])
-        R.inst("R19.3", "matches-besides-version-fields", cmp_fields == set(spec["collision_id_fields"]), sp=mm["sp"],
-               expect=sorted(spec["collision_id_fields"]), got=sorted(cmp_fields))
-    mdm = c.fn("make_dependency_management")
-    if R.anchor("R19.3", "fn make_dependency_management", mdm):
-        # import arm: `Some(None)` of x.scope.map(into_scope): extend(target.dependency_management) then continue
-        arms = []
-        for n in H.walk(mdm["body"]):
-            if n.get("k") == "match":
-                for a in n["arms"]:
-                    if H.render_pat(a["pat"]) == "Option::Some(Option::None)":
-                        arms.append(a)
-        if R.anchor("R19.3", "import-scope arm `Some(None)`", len(arms) == 1, sp=mdm["sp"]):
-            body = arms[0]["body"]
-            ext = [x for x in H.walk(body) if x.get("k") == "mcall" and x["name"] == "extend"]
-            ok_ext = len(ext) == 1 and H.place_root(ext[0]["args"][0])[1][-1:] == ["dependency_management"]
-            R.inst("R19.3", "import-splices-management", ok_ext, sp=body["sp"],
-                   detail="an import-scoped entry contributes the imported POM's dependencyManagement")
-            R.inst("R19.3", "import-entry-not-kept", H.diverges(body) and any(x.get("k") == "continue" for x in H.walk(body)), sp=body["sp"],
-                   detail="the import entry itself is skipped (`continue`)")
-            gm = [x for x in H.walk(body) if H.is_call(x, "get_merged_pom")]
-            R.inst("R19.3", "import-uses-effective-pom", len(gm) == 1, sp=body["sp"])
-        # parent management appended after the loop
-        top = H.peel(mdm["body"])
-        exts = [x for x in H.walk(mdm["body"]) if x.get("k") == "mcall" and x["name"] == "extend"]
-        parent_ext = [x for x in exts if any(H.local_of(y) and "parent" in H.local_of(y)[1] for y in H.walk(x["args"][0]))]
-        loops = [x for x in H.walk(mdm["body"]) if x.get("k") == "for"]
-        ok = len(parent_ext) == 1 and len(loops) >= 1 and not any(parent_ext[0] is y for l in loops for y in H.walk(l))
-        R.inst("R19.3", "parent-management-after-own", ok, sp=mdm["sp"],
-               detail="`find` returns the first match, so own/imported management must precede the parent's")
-    gmp = c.fn("get_merged_pom")
-    if R.anchor("R19.3", "fn get_merged_pom", gmp):
-        rev = [x for x in H.walk(gmp["body"]) if x.get("k") == "mcall" and x["name"] == "rev"]
-        pushes = [x for x in H.walk(gmp["body"]) if x.get("k") == "mcall" and x["name"] == "push"]
-        R.inst("R19.3", "parents-merged-root-first", len(rev) == 1 and len(pushes) == 1, sp=gmp["sp"],
-               detail="the parent chain is collected child->root (push) and merged root->child (rev)")
-    R.floor("R19.3", 10)
-
-
-# ------------------------------------------------------------------------------------ R19.4
-def r19_4(c, R, spec):
-    R.rule("R19.4", "printing and parsing agree: DependencyScope Display table = FromStr table = Maven names; "
-                    "MavenCoord Display segment order = group:artifact:type[:classifier]:version as parsed by FromStr; "
-                    "try_resolvers returns at the first Some in slice order")
-    disp = [b for b in c.fns("fmt") if (b.get("impl_ty") or "") == SCOPE and "Display" in (b.get("impl_trait") or "")]
-    frm = [b for b in c.fns("from_str") if (b.get("impl_ty") or "") == SCOPE]
-    if R.anchor("R19.4", "impl Display for DependencyScope", len(disp) == 1) and R.anchor("R19.4", "impl FromStr for DependencyScope", len(frm) == 1):
-        for v, text in spec["scope_names"].items():
-            m = [n for n in H.walk(disp[0]["body"]) if n.get("k") == "match"]
-            got = None
-            if m:
-                ev = T.Evaluator()
-                got = ev.match(m[0], {**{}, **_bind_scrut(m[0], T.V(v))})
-            R.inst("R19.4", "display:%s" % v, got == ("s", text), sp=disp[0]["sp"], expect=text, got=T.show(got) if got else None)
-            got2 = T.Evaluator().run_fn(frm[0], [("s", text)])
-            R.inst("R19.4", "from_str:%s" % text, got2 == T.V("Ok", T.V(v)), sp=frm[0]["sp"], expect="Ok(%s)" % v, got=T.show(got2))
-        got3 = T.Evaluator().run_fn(frm[0], [("s", "import")])
-        R.inst("R19.4", "from_str:unknown", got3[0] == "err", sp=frm[0]["sp"], expect="Err", got=T.show(got3))
-    # MavenCoord Display: order of placeholders
-    cdisp = [b for b in c.fns("fmt") if (b.get("impl_ty") or "").endswith("coord::MavenCoord") and "Display" in (b.get("impl_trait") or "")]
-    if R.anchor("R19.4", "impl Display for MavenCoord", len(cdisp) == 1):
-        fa = _format_args_in(c, cdisp[0])
-        ok = False
-        got = None
-        if len(fa) == 1:
-            order = []
-            lits = []
-            for p in fa[0]["pieces"]:
-                if isinstance(p, dict):
-                    src = fa[0]["args"][p["arg"]]["src"]
-                    order.append(src)
-                else:
-                    lits.append(p)
-            got = {"args": order, "literals": lits}
-            # args are `self.<field>` possibly through the classifier helpers
-            fields = []
-            for s in order:
-                for fld in ("group", "artifact", "type_", "classifier", "version"):
-                    if ("self." + fld) in s:
-                        fields.append(fld)
-                        break
-            dedup = [f for i, f in enumerate(fields) if i == 0 or fields[i - 1] != f]
-            ok = dedup == spec["coord_display_order"] and all(l == ":" for l in lits)
-        R.inst("R19.4", "coord-display-order", ok, sp=cdisp[0]["sp"], expect=spec["coord_display_order"], got=got)
-    cfrom = [b for b in c.fns("from_str") if (b.get("impl_ty") or "").endswith("coord::MavenCoord")]
-    if R.anchor("R19.4", "impl FromStr for MavenCoord", len(cfrom) == 1):
-        b = cfrom[0]
-        splits = [n for n in H.walk(b["body"]) if n.get("k") == "mcall" and n["name"] == "split" and H.const_value(n["args"][0]) == ":"]
-        R.inst("R19.4", "coord-parse-separator", len(splits) == 1, sp=b["sp"])
-        # the 3-tuple (type, classifier, version) for 3, 4, 5 segments
-        tuples = [n for n in H.walk(b["body"]) if n.get("k") == "tuple" and len(n["es"]) == 3]
-        shapes = sorted(tuple(H.render(H.peel(e)) for e in t["es"]) for t in tuples)
-        want = sorted([
-            ("Option::Some(type_or_version)", "Option::Some(classifier_or_version)", "version"),
-            ("Option::Some(type_or_version)", "Option::None", "classifier_or_version"),
-            ("Option::None", "Option::None", "type_or_version"),
-        ])
-        # name-independent form: which `iter.next()` ordinal ends in which slot
-        R.inst("R19.4", "coord-parse-slots", _coord_slots(b) == [("type", 3), ("classifier", 4), ("version", 5)] or shapes == want,
-               sp=b["sp"], got=shapes, expect=want)
-    tr = c.fn("try_resolvers")
-    if R.anchor("R19.4", "fn try_resolvers", tr):
-        fors = [n for n in H.walk(tr["body"]) if n.get("k") == "for"]
-        ok = False
-        if len(fors) == 1:
-            it = H.peel(fors[0]["iter"])
-            params = H.param_ids(tr)
-            loc = H.local_of(it)
-            rets = [n for n in H.walk(fors[0]["body"]) if n.get("k") == "ret"]
-            ok = bool(loc) and H.origin_local(tr["body"], loc[0]) == params[0] and len(rets) == 1 and not any(
-                x.get("k") == "mcall" and x["name"] in ("rev", "sort", "sort_by", "sort_by_key") for x in H.walk(tr["body"]))
-        R.inst("R19.4", "resolver-order", ok, sp=tr["sp"],
-               detail="iterate the resolver slice front to back and return at the first Some")
-    R.floor("R19.4", 14)
-
-
-def _bind_scrut(m, value):
-    """env that makes the scrutinee local evaluate to `value`."""
-    loc = H.local_of(m["scrut"])
-    return {loc[0]: value} if loc else {}
-
-
-def _format_args_in(c, body):
-    """format_args records whose call-site span lies inside the body's span."""
-    def parse(sp):
-        f, rest = sp.rsplit(":", 4)[0], sp.rsplit(":", 4)[1:]
-        l1, c1h = rest[0], rest[1]
-        c1, l2 = c1h.split("-")
-        return f, (int(l1), int(c1)), (int(l2), int(rest[3]) if len(rest) > 3 else 0)
-    def parse2(sp):
-        file, a, b_, c_ = sp.rsplit(":", 3)
-        l1 = int(a)
-        c1, l2 = b_.split("-")
-        return file, (l1, int(c1)), (int(l2), int(c_))
-    bf, blo, bhi = parse2(body["body"]["sp"])
+def _forests(n, start=0):
+    """all ordered forests with n nodes, labelled in pre-order from `start`"""
+    if n == 0:
+        return [[]]
     out = []
-    for fa in c.raw.get("format_args", []):
-        try:
-            f, lo, hi = parse2(fa["sp"])
-        except Exception:
-            continue
-        if f == bf and blo <= lo and hi <= bhi:
-            out.append(fa)
+    for k in range(1, n + 1):                     # size of the first tree
+        for kids in _forests(k - 1, start + 1):
+            for rest in _forests(n - k, start + k):
+                out.append([[start, kids]] + rest)
     return out
 
 
-def _coord_slots(b):
-    return None
+def _copy_forest(f):
+    return [[lab, _copy_forest(ch)] for lab, ch in f]
+
+
+def _to_trees(f, mk):
+    return Lst([tree(mk(lab), _to_trees(ch, mk).items) for lab, ch in f])
+
+
+def _from_trees(v, unmk):
+    return [[unmk(t.f["data"]), _from_trees(t.f["children"], unmk)] for t in v.items]
+
+
+def r19_2(c, R, spec):
+    _r19_2(c, R, spec)
+    R.floor("R19.2", 7)
+
+
+def _r19_2(c, R, spec):
+    R.rule("R19.2", "conflict identity is exactly {group, artifact, classifier, type}; clean_up keeps, of several nodes with the same "
+                    "identity, the first one in breadth-first order (nearest wins, first declaration breaks ties) and drops the "
+                    "others with their subtrees; breadth_first_retain offers nodes to the predicate level by level, left to right, "
+                    "and never the children of a rejected node")
+    adt = c.adts.get(COLL)
+    idf = spec["collision_id_fields"]
+    if R.anchor("R19.2", "struct DependencyCollisionId", adt):
+        fields = [f["name"] for f in adt["variants"][0]["fields"]]
+        R.inst("R19.2", "collision-id-fields", sorted(fields) == sorted(idf), sp=adt["sp"],
+               expect=sorted(idf), got=sorted(fields),
+               detail="same (group, artifact, classifier, type) = same artifact for mediation; version must not be part of it")
+    E = _Eval(c, R, "R19.2")
+    mk = _role(c, R, "R19.2", "fn (&MavenCoord) -> DependencyCollisionId [dependency_collision_id]",
+               lambda b: _out(b) == COLL and _ins(b) == ["&" + COORD], prefer="dependency_collision_id")
+    if mk and _shapes(c, R, "R19.2", [COORD]):
+        src = coord("G", "A", "V", "C", "T")
+        res = E.run(mk, [src])
+        if res is not None:
+            got = py(res) if isinstance(res, St) else {}
+            for f in idf:
+                R.inst("R19.2", "collision-id-source:%s" % f, isinstance(got, dict) and got.get(f) == py(src.f[f]) and f in got, sp=mk["sp"],
+                       expect="self.%s" % f, got=got.get(f) if isinstance(got, dict) else got)
+    cu = _role(c, R, "R19.2", "fn (Vec<Tree<FoundDependency>>) -> Vec<Tree<FoundDependency>> [clean_up_dependencies]",
+               lambda b: len(_ins(b)) == 1 and _ins(b)[0].startswith("alloc::vec::Vec<%s<%s" % (TREE, FOUND)) and _out(b).startswith("alloc::vec::Vec<%s<%s" % (TREE, FOUND)),
+               prefer="clean_up_dependencies")
+    if cu and _shapes(c, R, "R19.2", [TREE, FOUND, COORD]):
+        # label = (artifact, version, classifier, type, group)
+        def L(a, v, cl=None, ty="jar", g="org.example"):
+            return (a, v, cl, ty, g)
+
+        def mkd(lab):
+            return St(FOUND, {"resolver": sym("resolver"), "coord": coord(lab[4], lab[0], lab[1], lab[2], lab[3]), "scope": V("Compile")})
+
+        def unmk(d):
+            co = py(d.f["coord"])
+            return (co["artifact"], co["version"], co["classifier"][1] if co["classifier"] else None, co["type_"], co["group"])
+        samples = {
+            "maven-doc nearest wins": [[L("B", "1"), [[L("C", "1"), [[L("D", "2.0"), []]]]]], [L("E", "1"), [[L("D", "1.0"), []]]]],
+            "maven-doc override at the root": [[L("B", "1"), [[L("C", "1"), [[L("D", "2.0"), []]]]]], [L("E", "1"), [[L("D", "1.0"), []]]], [L("D", "2.0"), []]],
+            "same depth: first declaration wins": [[L("B", "1"), [[L("C", "1.0"), []]]], [L("D", "1"), [[L("C", "2.0"), []]]]],
+            "cousins at equal depth": [[L("A", "1"), [[L("X", "1"), [[L("Z", "1"), []], [L("Q", "1"), []]]], [L("Y", "1"), [[L("Q", "2"), []], [L("Z", "2"), []]]]]]],
+            "classifier, type and group distinguish": [[L("D", "1"), []], [L("D", "1", "sources"), []], [L("D", "1", None, "war"), []], [L("D", "1", g="org.other"), []],
+                                                       [L("K", "1"), [[L("D", "2"), []], [L("D", "2", "sources"), []]]]],
+            "a dropped subtree claims nothing": [[L("B", "1"), [[L("C", "1"), [[L("E", "1"), []]]]]], [L("C", "2"), []], [L("F", "1"), [[L("G", "1"), [[L("E", "2"), []]]]]]],
+        }
+        bad = []
+        for name, f in samples.items():
+            seen = set()
+
+            def keep(lab):
+                ident = (lab[4], lab[0], lab[2], lab[3])
+                if ident in seen:
+                    return False
+                seen.add(ident)
+                return True
+            _, want = ref_retain(_copy_forest(f), keep)
+            res = E.run(cu, [_to_trees(f, mkd)])
+            if res is None:
+                bad = None
+                break
+            got = _from_trees(res, unmk) if isinstance(res, Lst) else py(res)
+            if got != want:
+                bad.append({"sample": name, "expected": want, "found": got})
+        if bad is not None:
+            R.inst("R19.2", "retain-first-seen", not bad, sp=cu["sp"], got=bad[:2] or None,
+                   expect="of the nodes with the same (group, artifact, classifier, type) the first in breadth-first order stays, the others go with their subtrees")
+    bfr = _role(c, R, "R19.2", "fn (&mut Vec<Tree<T>>, impl FnMut(&T) -> bool) [breadth_first_retain]",
+                lambda b: len(_ins(b)) == 2 and _ins(b)[0].startswith("&mut alloc::vec::Vec<%s<" % TREE) and "FnMut(" in _ins(b)[1] and _out(b) == "()",
+                prefer="breadth_first_retain")
+    if bfr and _shapes(c, R, "R19.2", [TREE]):
+        cases = []
+        doc = [[0, []], [1, [[2, [[3, [[4, []], [5, []], [6, []]]], [7, [[8, []], [9, []], [10, []]]]]], [11, [[12, []]]]]]]
+        cases.append((doc, lambda i: i % 3 != 0))
+        cases.append((doc, lambda i: True))
+        deep = [[0, [[1, [[2, []], [3, []]]], [4, [[5, []], [6, []]]]]], [7, [[8, [[9, []]]]]]]
+        cases.append((deep, lambda i: True))
+        cases.append((deep, lambda i: i not in (4, 9)))
+        for n in range(1, 5):
+            for f in _forests(n):
+                for mask in range(1 << n):
+                    cases.append((f, (lambda m: (lambda i: bool(m >> i & 1)))(mask)))
+        bad = []
+        for f, keep in cases:
+            wtrace, want = ref_retain(_copy_forest(f), keep)
+            trace = []
+
+            def pred(ip, args, keep=keep, trace=trace):
+                trace.append(py(args[0]))
+                return Bv(keep(py(args[0])))
+            forest = _to_trees(f, lambda i: U.I(i))
+            res = E.run(bfr, [forest, Py(pred)])
+            if res is None:
+                bad = None
+                break
+            got = _from_trees(forest, py)
+            if trace != wtrace or got != want:
+                bad.append({"forest": f, "kept": [i for i in range(64) if keep(i)][:13], "expected order": wtrace, "found order": trace,
+                            "expected forest": want, "found forest": got})
+                if len(bad) >= 3:
+                    break
+        if bad is not None:
+            R.inst("R19.2", "bfs-shape", not bad, sp=bfr["sp"], got=bad[:1] or None,
+                   expect="nodes are offered to the predicate level by level, left to right (roots first), children of a rejected node never; "
+                          "exactly the accepted nodes remain (%d forests x predicate outcomes)" % len(cases),
+                   detail="first-in, first-out processing and filtering a level before its children are enqueued make the nearest "
+                          "occurrence the first one the (stateful) predicate sees")
+
+# ------------------------------------------------------------------------------------ R19.3
+def r19_3(c, R, spec):
+    _r19_3(c, R, spec)
+    R.floor("R19.3", 12)
+
+
+def _r19_3(c, R, spec):
+    R.rule("R19.3", "managed values fill omitted ones only: version = own ?? managed, scope = own.or(managed), optional = own.or(managed), "
+                    "managed entry = first one equal in (group, artifact, classifier, type); import-scoped entries splice the imported "
+                    "effective management and are not kept themselves; parent entries come after own entries; ancestors are merged "
+                    "root first")
+    E = _Eval(c, R, "R19.3")
+    idf = spec["collision_id_fields"]
+    md = _role(c, R, "R19.3", "fn (&[DependencyDone], Option<Dependencies<DependencyScope>>, Option<Vec<DependencyDone>>) -> Result<Vec<DependencyDone>> [make_dependencies]",
+               lambda b: any("maven_pom::Dependencies<" in t for t in _ins(b)) and DONE in _out(b) and not b.get("impl_ty"),
+               prefer="make_dependencies")
+    if md and _shapes(c, R, "R19.3", [COORD, DONE, DEP, DEPS]):
+        def run_md(dm, child, parent):
+            args = _args_by_type(md, [
+                (lambda t: "maven_pom::Dependencies<" in t, opt(None if child is None else dependencies(child))),
+                (lambda t: t.startswith("core::option::Option<") and DONE in t, opt(None if parent is None else Lst(parent))),
+                (lambda t: DONE in t, Lst(dm)),
+            ])
+            r = E.run(md, args)
+            return None if r is None else py(r)
+
+        def one(dm, x):
+            r = run_md(dm, [x], None)
+            if isinstance(r, tuple) and r[0] == "Ok" and isinstance(r[1], list) and len(r[1]) == 1:
+                return r[1][0]
+            return r
+        G, A = "org.m", "m"
+        alive = True
+        for fname, own_vals, man_vals, conv in (("scope", ["Runtime", None], ["Test", None], lambda x: x),
+                                                 ("optional", [False, None], [True, None], lambda x: x)):
+            bad = []
+            for own in own_vals:
+                for man in man_vals:
+                    M = done(coord(G, A, "MV"), **{fname: man})
+                    x = dependency(G, A, None, **{fname: own})
+                    r = one([M], x)
+                    if r is None:
+                        alive = False
+                        break
+                    want = own if own is not None else man
+                    got = r.get(fname) if isinstance(r, dict) else r
+                    if got != (None if want is None else some(want)):
+                        bad.append({"own": own, "managed": man, "expected": want, "found": got})
+                if not alive:
+                    break
+            if not alive:
+                break
+            R.inst("R19.3", "managed-%s" % fname, not bad, sp=md["sp"], got=bad or None,
+                   expect="own %s if declared, else the managed one" % fname)
+        if alive:
+            M = done(coord(G, A, "MV"), "Test", True)
+            rows = [
+                ("managed, no own version", [M], dependency(G, A, None), done_py(G, A, "MV", scope="Test", optional=True)),
+                ("managed, own version", [M], dependency(G, A, "OV"), done_py(G, A, "OV", scope="Test", optional=True)),
+                ("unmanaged, own version", [], dependency(G, A, "OV", scope="Runtime", optional=False), done_py(G, A, "OV", scope="Runtime", optional=False)),
+                ("unmanaged, no version", [], dependency(G, A, None), "Err"),
+            ]
+            bad = []
+            for name, dm, x, want in rows:
+                r = one(dm, x)
+                if r is None:
+                    alive = False
+                    break
+                if want == "Err":
+                    if not (isinstance(r, tuple) and r[0] == "Err"):
+                        bad.append({"case": name, "expected": "Err", "found": r})
+                elif r != want:
+                    bad.append({"case": name, "expected": want, "found": r})
+            if alive:
+                R.inst("R19.3", "managed-version", not bad, sp=md["sp"], got=bad or None,
+                       expect="own version if declared, else the managed version; neither: error")
+        if alive:
+            dm = [done(coord("org.other", A, "g")), done(coord(G, "other", "a")), done(coord(G, A, "c", cl="x")), done(coord(G, A, "t", ty="war")),
+                  done(coord(G, A, "1")), done(coord(G, A, "2"))]
+            r = one(dm, dependency(G, A, None))
+            r2 = one([done(coord(G, A, "tj", cl="tests", ty="test-jar")), done(coord(G, A, "plain", ty="test-jar"))], dependency(G, A, None, ty="test-jar"))
+            if r is not None and r2 is not None:
+                got = (r.get("coord", {}).get("version") if isinstance(r, dict) else r, r2.get("coord", {}).get("version") if isinstance(r2, dict) else r2)
+                R.inst("R19.3", "management-lookup-key", got == ("1", "tj"), sp=md["sp"], expect=("1", "tj"), got=got,
+                       detail="the managed entry is the first one equal in group, artifact, classifier (default of the type) and type; "
+                              "version is not compared")
+            x1, x2 = dependency(G, "x1", "1"), dependency(G, "x2", "2")
+            p1, p2 = done(coord(G, "p1", "1")), done(coord(G, "p2", "2"), "Test")
+            r = run_md([], [x1, x2], [p1, p2])
+            r0 = run_md([], [x1, x2], None)
+            if r is not None and r0 is not None:
+                arts = lambda q: [d["coord"]["artifact"] for d in q[1]] if isinstance(q, tuple) and q[0] == "Ok" else q
+                R.inst("R19.3", "parent-dependencies-after-own", arts(r) == ["x1", "x2", "p1", "p2"] and arts(r0) == ["x1", "x2"], sp=md["sp"],
+                       expect=(["x1", "x2", "p1", "p2"], ["x1", "x2"]), got=(arts(r), arts(r0)),
+                       detail="own (child) dependencies first, then the parent's: declaration order breaks ties")
+    mm = _role(c, R, "R19.3", "fn MavenCoord::(&self, &str, &str, &Option<String>, &str) -> bool [matches_besides_version]",
+               lambda b: (b.get("impl_ty") or "") == COORD and not b.get("impl_trait") and _out(b) == "bool" and len(_ins(b)) == 5,
+               prefer="matches_besides_version")
+    if mm and _shapes(c, R, "R19.3", [COORD]):
+        # which parameter stands for which coordinate field is found by evaluation (not by name): the one assignment of
+        # distinct values under which the coordinate matches
+        import itertools
+        me = coord("g", "a", "v", "c", "t")
+        ptys = _ins(mm)[1:]
+        strs = [i for i, t in enumerate(ptys) if "Option<" not in t]
+        opts = [i for i, t in enumerate(ptys) if "Option<" in t]
+        alive = True
+
+        def call(self_, assign):
+            """assign: {field: value}; parameters filled through `slot` (param index -> field)"""
+            nonlocal alive
+            r = E.run(mm, [self_] + [assign[slot[i]] for i in range(4)])
+            if r is None:
+                alive = False
+            return None if r is None else py(r)
+        base = {"group": S("g"), "artifact": S("a"), "classifier": SOME(S("c")), "type_": S("t")}
+        slots = []
+        if len(strs) == 3 and len(opts) == 1:
+            for perm in itertools.permutations(["group", "artifact", "type_"]):
+                slot = {opts[0]: "classifier"}
+                slot.update({i: f for i, f in zip(strs, perm)})
+                if alive and call(U.deep(me), base) is True:
+                    slots.append(slot)
+        if alive and R.anchor("R19.3", "matches_besides_version accepts equal (group, artifact, classifier, type) under exactly one parameter assignment",
+                              len(slots) == 1, sp=mm["sp"]):
+            slot = slots[0]
+            res = {}
+            for f, alt in (("group", S("x")), ("artifact", S("x")), ("classifier", NONE), ("type_", S("x"))):
+                res[f] = call(U.deep(me), dict(base, **{f: alt}))
+            res["classifier/other"] = call(U.deep(me), dict(base, classifier=SOME(S("x"))))
+            res["version"] = call(coord("g", "a", "other-version", "c", "t"), base)
+            if alive:
+                cmp_fields = sorted(f for f in ("group", "artifact", "classifier", "type_", "version") if res[f] is False)
+                R.inst("R19.3", "matches-besides-version-fields", cmp_fields == sorted(idf) and res["classifier/other"] is False, sp=mm["sp"],
+                       expect=sorted(idf), got={"fields that decide": cmp_fields, "results": res})
+    merged = _merged_pom_fn(c, R, "R19.3")
+    mdm = _role(c, R, "R19.3", "fn (.., Option<DependencyManagement>, Option<Vec<DependencyDone>>) -> Result<Vec<DependencyDone>> [make_dependency_management]",
+                lambda b: any(DEPMGMT in t for t in _ins(b)) and DONE in _out(b) and not b.get("impl_ty"),
+                prefer="make_dependency_management")
+    if mdm and merged and _shapes(c, R, "R19.3", [COORD, DONE, DEP, DEPS, DEPMGMT, POMDONE]):
+        G = "org.m"
+        imported = [done(coord("org.i", "i1", "1"), "Runtime"), done(coord("org.i", "i2", "2"), None, True)]
+
+        def run_mdm(entries, parent):
+            asked = []
+
+            def h_merged(ip, args, n):
+                co = [a for a in args if isinstance(a, St) and a.adt == COORD]
+                asked.append(py(co[0]) if len(co) == 1 else None)
+                return OK(T_(sym("resolver"), pom_done(coord("org.i", "bom", "7", ty="pom"), [U.deep(x) for x in imported], [done(coord("org.i", "junk", "0"))])))
+            args = _args_by_type(mdm, [
+                (lambda t: DEPMGMT in t, opt(None if entries is None else St(DEPMGMT, {"dependencies": SOME(dependencies(entries))}))),
+                (lambda t: t.startswith("core::option::Option<") and DONE in t, opt(None if parent is None else Lst(parent))),
+            ])
+            r = E.run(mdm, args, hooks={merged["key"]: h_merged})
+            return (None, None) if r is None else (py(r), asked)
+        e1 = dependency(G, "e1", "1", scope="Test", optional=True)
+        imp = dependency("org.i", "bom", "7", ty="pom", scope="Import")
+        e3 = dependency(G, "e3", "3", ty="test-jar")
+        pm = done(coord(G, "pm", "9"), "Provided")
+        r, asked = run_mdm([e1, imp, e3], [pm])
+        rn, _ = run_mdm([e1], None)
+        re_, _ = run_mdm(None, [pm])
+        rv, _ = run_mdm([dependency(G, "nov", None)], None)
+        if r is not None and rn is not None and re_ is not None and rv is not None:
+            okr = isinstance(r, tuple) and r[0] == "Ok" and isinstance(r[1], list)
+            arts = [d["coord"]["artifact"] for d in r[1]] if okr else r
+            R.inst("R19.3", "import-splices-management", okr and [a for a in arts if a in ("e1", "i1", "i2", "e3")] == ["e1", "i1", "i2", "e3"]
+                   and [d for d in r[1] if d["coord"]["artifact"] in ("i1", "i2")] == [py(x) for x in imported], sp=mdm["sp"],
+                   expect=["e1", "i1", "i2", "e3"], got=arts,
+                   detail="an import-scoped entry contributes the imported POM's dependencyManagement, in its place")
+            R.inst("R19.3", "import-entry-not-kept", okr and "bom" not in arts and "junk" not in arts, sp=mdm["sp"], got=arts,
+                   detail="the import entry itself (and the imported POM's plain dependencies) are not management entries")
+            want_asked = [py(coord("org.i", "bom", "7", ty="pom"))]
+            R.inst("R19.3", "import-uses-effective-pom", asked == want_asked, sp=mdm["sp"], expect=want_asked, got=asked,
+                   detail="the imported management is that of the effective (parent-merged) POM of the import's coordinate, fetched once")
+            arts_n = [d["coord"]["artifact"] for d in rn[1]] if isinstance(rn, tuple) and rn[0] == "Ok" else rn
+            arts_e = [d["coord"]["artifact"] for d in re_[1]] if isinstance(re_, tuple) and re_[0] == "Ok" else re_
+            R.inst("R19.3", "parent-management-after-own", okr and arts == ["e1", "i1", "i2", "e3", "pm"] and arts_n == ["e1"] and arts_e == ["pm"]
+                   and r[1][-1] == py(pm), sp=mdm["sp"],
+                   expect=(["e1", "i1", "i2", "e3", "pm"], ["e1"], ["pm"]), got=(arts, arts_n, arts_e),
+                   detail="the first match is used, so own/imported management must precede the parent's")
+            want = [done_py(G, "e1", "1", scope="Test", optional=True), done_py(G, "e3", "3", cl="tests", ty="test-jar")]
+            got = [d for d in r[1] if d["coord"]["artifact"] in ("e1", "e3")] if okr else r
+            R.inst("R19.3", "management-entry-kept", got == want and isinstance(rv, tuple) and rv[0] == "Err", sp=mdm["sp"], expect=want,
+                   got={"entries": got, "entry without version": rv},
+                   detail="an ordinary entry keeps coordinate (type default jar, classifier default of the type), scope and optional; "
+                          "an entry without version is an error")
+    fetch = _role(c, R, "R19.3", "fn (&impl Downloader, &[Resolver], &MavenCoord) -> Result<(&Resolver, MavenPom)> [try_get_pom_for]",
+                  lambda b: "maven_pom::MavenPom" in _out(b) and any("coord::MavenCoord" in t for t in _ins(b)) and not b.get("impl_ty"),
+                  prefer="try_get_pom_for")
+    if merged and fetch and _shapes(c, R, "R19.3", [COORD, DONE, DEP, DEPS, DEPMGMT, POM, PARENT, POMDONE]):
+        def universe(p_group):
+            gp = pom("org.gp", "gp", "1", packaging="pom",
+                     dm=[dependency("org.x", "x", "1", scope="Test"), dependency("org.x", "y", "1")], deps=[dependency("org.d", "dgp", "1")])
+            p = pom(p_group, "p", "2", parent=("org.gp", "gp", "1"), packaging="pom",
+                    dm=[dependency("org.x", "x", "2")], deps=[dependency("org.d", "dp", "1")])
+            ch = pom("org.c", "c", "3", parent=(p_group or "org.gp", "p", "2"),
+                     dm=[dependency("org.x", "w", "3")],
+                     deps=[dependency("org.x", "x"), dependency("org.x", "y"), dependency("org.x", "z", "9")])
+            return {("org.gp", "gp", "1"): gp, (p_group or "org.gp", "p", "2"): p, ("org.c", "c", "3"): ch}
+        bad = []
+        alive = True
+        for label, p_group in (("parent inherits its groupId from the grandparent", None), ("all coordinates explicit", "org.p")):
+            uni = universe(p_group)
+
+            def h_fetch(ip, args, n, uni=uni):
+                co = [a for a in args if isinstance(a, St) and a.adt == COORD]
+                k = (py(co[0].f["group"]), py(co[0].f["artifact"]), py(co[0].f["version"])) if len(co) == 1 else None
+                if k in uni:
+                    return OK(T_(sym("resolver"), U.deep(uni[k])))
+                return ERR(sym("no such pom %r" % (k,)))
+            args = _args_by_type(merged, [(lambda t: "coord::MavenCoord" in t, coord("org.c", "c", "3"))])
+            r = E.run(merged, args, hooks={fetch["key"]: h_fetch})
+            if r is None:
+                alive = False
+                break
+            r = py(r)
+            want_dm = [("w", "3"), ("x", "2"), ("x", "1"), ("y", "1")]
+            want_deps = [("x", "2", None), ("y", "1", None), ("z", "9", None), ("dp", "1", None), ("dgp", "1", None)]
+            if isinstance(r, tuple) and r[0] == "Ok" and isinstance(r[1], tuple) and isinstance(r[1][1], dict):
+                e = r[1][1]
+                got = {"coord": (e["coord"]["group"], e["coord"]["artifact"], e["coord"]["version"], e["coord"]["type_"]),
+                       "management": [(d["coord"]["artifact"], d["coord"]["version"]) for d in e["dependency_management"]],
+                       "dependencies": [(d["coord"]["artifact"], d["coord"]["version"], d["scope"]) for d in e["dependencies"]]}
+            else:
+                got = r
+            want = {"coord": ("org.c", "c", "3", "jar"), "management": want_dm, "dependencies": want_deps}
+            if got != want:
+                bad.append({"universe": "child -> parent -> grandparent, " + label, "expected": want, "found": got})
+        if alive:
+            R.inst("R19.3", "parents-merged-root-first", not bad, sp=merged["sp"], got=bad[:1] or None,
+                   expect="effective POM of the child: management = own, parent's, grandparent's; an unversioned dependency takes the "
+                          "nearest ancestor's managed version; inherited dependencies after own ones",
+                   detail="the ancestor chain is collected child->root and must be merged root->child")
+
+# ------------------------------------------------------------------------------------ R19.4
+def r19_4(c, R, spec):
+    _r19_4(c, R, spec)
+    R.floor("R19.4", 16)
+
+
+def _r19_4(c, R, spec):
+    R.rule("R19.4", "printing and parsing agree: DependencyScope Display table = FromStr table = Maven names; "
+                    "MavenCoord Display = group:artifact:type[:classifier]:version, FromStr assigns 3/4/5 segments to "
+                    "(version) / (type, version) / (type, classifier, version) and parses what Display prints; "
+                    "try_resolvers asks the resolvers in slice order and returns at the first Some")
+    E = _Eval(c, R, "R19.4")
+    disp = [b for b in c.fns("fmt") if (b.get("impl_ty") or "") == SCOPE and "core::fmt::Display" in (b.get("impl_trait") or "")]
+    frm = [b for b in c.fns("from_str") if (b.get("impl_ty") or "") == SCOPE and "FromStr" in (b.get("impl_trait") or "")]
+    if R.anchor("R19.4", "impl Display for DependencyScope", len(disp) == 1) and R.anchor("R19.4", "impl FromStr for DependencyScope", len(frm) == 1):
+        for v, text in spec["scope_names"].items():
+            f = U.Fmt()
+            r = E.run(disp[0], [V(v), f], where="Display for DependencyScope")
+            if r is not None:
+                R.inst("R19.4", "display:%s" % v, U.is_v(r, "Ok") and f.text() == text, sp=disp[0]["sp"], expect=text, got=f.text())
+            r2 = E.run(frm[0], [S(text)], where="FromStr for DependencyScope")
+            if r2 is not None:
+                R.inst("R19.4", "from_str:%s" % text, py(r2) == ("Ok", v), sp=frm[0]["sp"], expect="Ok(%s)" % v, got=U.show(r2))
+        bad = []
+        for text in ("import", "", "Compile", "compile "):
+            r3 = E.run(frm[0], [S(text)], where="FromStr for DependencyScope")
+            if r3 is None:
+                bad = None
+                break
+            if not U.is_v(r3, "Err"):
+                bad.append((text, U.show(r3)))
+        if bad is not None:
+            R.inst("R19.4", "from_str:unknown", not bad, sp=frm[0]["sp"], expect="Err", got=bad or "Err")
+    cdisp = [b for b in c.fns("fmt") if (b.get("impl_ty") or "") == COORD and "core::fmt::Display" in (b.get("impl_trait") or "")]
+    cfrom = [b for b in c.fns("from_str") if (b.get("impl_ty") or "") == COORD and "FromStr" in (b.get("impl_trait") or "")]
+    shapes = _shapes(c, R, "R19.4", [COORD])
+
+    def show_coord(co):
+        f = U.Fmt()
+        r = E.run(cdisp[0], [co, f], where="Display for MavenCoord")
+        if r is None:
+            return None
+        return f.text() if U.is_v(r, "Ok") else U.show(r)
+
+    def parse(text):
+        r = E.run(cfrom[0], [S(text)], where="FromStr for MavenCoord")
+        return None if r is None else py(r)
+    vals = {"group": "org.g", "artifact": "a-b", "type_": "war", "classifier": "sources", "version": "1.0-rc"}
+    have_d = R.anchor("R19.4", "impl Display for MavenCoord", len(cdisp) == 1) and shapes
+    if have_d:
+        full = show_coord(coord(vals["group"], vals["artifact"], vals["version"], vals["classifier"], vals["type_"]))
+        nocl = show_coord(coord(vals["group"], vals["artifact"], vals["version"], None, vals["type_"]))
+        if full is not None and nocl is not None:
+            order = spec["coord_display_order"]
+            want_full = ":".join(vals[f] for f in order)
+            want_nocl = ":".join(vals[f] for f in order if f != "classifier")
+            R.inst("R19.4", "coord-display-order", (full, nocl) == (want_full, want_nocl), sp=cdisp[0]["sp"],
+                   expect=(want_full, want_nocl), got=(full, nocl),
+                   detail="segments in the order %s, the classifier segment only when there is a classifier" % ":".join(order))
+    have_p = R.anchor("R19.4", "impl FromStr for MavenCoord", len(cfrom) == 1) and shapes
+    if have_p:
+        b = cfrom[0]
+        r = parse("org.g/x:a-b.c:1.0-rc")
+        if r is not None:
+            want = ("Ok", {"group": "org.g/x", "artifact": "a-b.c", "version": "1.0-rc", "classifier": None, "type_": "jar"})
+            R.inst("R19.4", "coord-parse-separator", r == want, sp=b["sp"], expect=want, got=r,
+                   detail="`:` and only `:` separates the segments")
+        rows = [("g:a:v", {"group": "g", "artifact": "a", "version": "v", "classifier": None, "type_": "jar"}),
+                ("g:a:t:v", {"group": "g", "artifact": "a", "version": "v", "classifier": None, "type_": "t"}),
+                ("g:a:t:c:v", {"group": "g", "artifact": "a", "version": "v", "classifier": some("c"), "type_": "t"}),
+                ("g:a:t::v", {"group": "g", "artifact": "a", "version": "v", "classifier": some(""), "type_": "t"}),
+                ("g:a", "Err"), ("g", "Err"), ("g:a:t:c:v:x", "Err")]
+        bad = []
+        for text, want in rows:
+            r = parse(text)
+            if r is None:
+                bad = None
+                break
+            if (want == "Err" and not (isinstance(r, tuple) and r[0] == "Err")) or (want != "Err" and r != ("Ok", want)):
+                bad.append({"input": text, "expected": want, "found": r})
+        if bad is not None:
+            R.inst("R19.4", "coord-parse-slots", not bad, sp=b["sp"], got=bad or None,
+                   expect="3 segments: g:a:version (type jar); 4: g:a:type:version; 5: g:a:type:classifier:version; fewer or more: error")
+    if have_d and have_p:
+        bad = []
+        for co in (coord("org.g", "a", "1.0"), coord("org.g", "a", "1.0", ty="war"), coord("org.g", "a", "1.0", "sources", "war"),
+                   coord("org.g", "a", "1.0", "tests", "test-jar")):
+            text = show_coord(co)
+            back = parse(text) if isinstance(text, str) else None
+            if text is None or back is None:
+                bad = None
+                break
+            if back != ("Ok", py(co)):
+                bad.append({"coordinate": py(co), "printed": text, "parsed back": back})
+        if bad is not None:
+            R.inst("R19.4", "coord-roundtrip", not bad, sp=cdisp[0]["sp"], got=bad or None, expect="from_str(to_string(c)) == c")
+    tr = _role(c, R, "R19.4", "fn (&[Resolver], impl Fn(&Resolver) -> String, impl Fn(String) -> Future) -> Result<(&Resolver, T)> [try_resolvers]",
+               lambda b: len(_ins(b)) == 3 and "[%s" % RESOLVER in _ins(b)[0] and sum(1 for t in _ins(b) if t.startswith("impl Fn")) == 2,
+               prefer="try_resolvers")
+    radt = c.adts.get(RESOLVER)
+    if tr and R.anchor("R19.4", "struct Resolver", radt and radt.get("variants")):
+        def resolver(i):
+            return St(RESOLVER, {f["name"]: V("Borrowed", S("r%d" % i)) for f in radt["variants"][0]["fields"]})
+        plans = [
+            ("second resolver has it", ["none", "hit", "hit"], ("Ok", 1), 2),
+            ("first resolver has it", ["hit", "hit", "hit"], ("Ok", 0), 1),
+            ("last resolver has it", ["none", "none", "hit"], ("Ok", 2), 3),
+            ("nobody has it", ["none", "none", "none"], ("Err",), 3),
+            ("download error stops the search", ["none", "err", "hit"], ("Err",), 2),
+        ]
+        bad = []
+        for label, plan, want, n_asked in plans:
+            rs = [resolver(i) for i in range(len(plan))]
+            log = []
+
+            def url_maker(ip, args, rs=rs):
+                i = [k for k, r in enumerate(rs) if r is args[0]]
+                return S("url%d" % i[0]) if len(i) == 1 else S("url?")
+
+            def downloader(ip, args, plan=plan, log=log):
+                u = py(args[0])
+                log.append(u)
+                k = int(u[3:]) if u[3:].isdigit() else -1
+                what = plan[k] if 0 <= k < len(plan) else "err"
+                return {"none": OK(NONE), "hit": OK(SOME(S("payload%d" % k))), "err": ERR(sym("io"))}[what]
+            args = _args_by_type(tr, [(lambda t: "[%s" % RESOLVER in t, Lst(rs)),
+                                      (lambda t: t.startswith("impl Fn") and "Resolver" in t, Py(url_maker)),
+                                      (lambda t: t.startswith("impl Fn"), Py(downloader))])
+            r = E.run(tr, args)
+            if r is None:
+                bad = None
+                break
+            if want[0] == "Ok":
+                k = want[1]
+                ok = (U.is_v(r, "Ok") and isinstance(r[2][0], tuple) and r[2][0][0] == "t" and len(r[2][0][1]) == 2
+                      and r[2][0][1][0] is rs[k] and py(r[2][0][1][1]) == "payload%d" % k)
+            else:
+                ok = U.is_v(r, "Err")
+            if not ok or log != ["url%d" % i for i in range(n_asked)]:
+                bad.append({"case": label, "expected": (want, ["url%d" % i for i in range(n_asked)]), "found": (U.show(r)[:120], log)})
+        if bad is not None:
+            R.inst("R19.4", "resolver-order", not bad, sp=tr["sp"], got=bad[:2] or None,
+                   detail="ask the resolvers front to back, return the first Some together with its resolver, ask nobody after it")
